@@ -46,8 +46,9 @@ Definition offset (u : N) : N :=
 Definition root (a : list N) : N := offset (get a TB.ROOT_INDEX).
 
 (* one round of the `for` loop of TrieEntryIter::next for byte k at node_pos:
-   None = label mismatch (`return None`), Some (node_pos', has_leaf unit) otherwise *)
+   None = NUL byte or label mismatch (`return None`), Some (node_pos', has_leaf unit) otherwise *)
 Definition step (a : list N) (pos : N) (k : N) : option (N * bool) :=
+  if TB.nul_stops && (k =? 0) then None else
   let p := N.lxor pos k in
   let u := get a p in
   if label u =? k then Some (N.lxor p (offset u), has_leaf u) else None.
@@ -148,6 +149,7 @@ Definition keys_of (a : list N) (fuel : nat) : option (list (list N * N)) :=
 
 (* ---------- faithful (partial) traversal: every read is checked against the array length ---------- *)
 Definition step_opt (a : list N) (pos : N) (k : N) : option (option (N * bool)) :=
+  if TB.nul_stops && (k =? 0) then Some None else
   let p := N.lxor pos k in
   match get_opt a p with
   | None => None
